@@ -243,12 +243,12 @@ def ownWrite (st : St) (b : Bytes) : St :=
   { st1 with ctx := { st1.ctx with writer := { w with length := w.length + b.length } },
              log := st1.log ++ [.wr (.under w.under) b] }
 
-/-- `c.Resp.WriteHeader(code)` -/
-def respWriteHeader (st : St) (code : Int) : St × Option PVal :=
+/-- `c.Resp.WriteHeader(code)` called at position `p` -/
+def respWriteHeader (p : Pos) (st : St) (code : Int) : St × Option PVal :=
   match st.ctx.resp with
   | .own => (ownWriteHeader st code, none)
   | .alt id => ({ st with log := st.log ++ [.wh (.alt id) code] }, none)
-  | .nil => (st, some .rtNilMap)          -- nil interface: runtime error (not reachable after `Init`)
+  | .nil => (st.ev (.panicked p .rtNilMap), some .rtNilMap)   -- nil interface: runtime error (not reachable after `Init`)
 
 /-- `c.Set(k, v)` -/
 def Ctx.set (c : Ctx) (k : Bytes) (v : Val) : Ctx := { c with data := mapSet c.data k v }
@@ -271,10 +271,7 @@ def stepS (p : Pos) (a : SAct) (st : St) : St × Option PVal :=
     | .own => (ownWrite st b, none)
     | .alt id => ({ st with log := st.log ++ [.wr (.alt id) b] }, none)
     | .nil => (st.ev (.panicked p .rtNilMap), some .rtNilMap)
-  | .respWH code =>
-    match respWriteHeader st code with
-    | (st', none) => (st', none)
-    | (st', some v) => (st'.ev (.panicked p v), some v)
+  | .respWH code => respWriteHeader p st code
   | .replaceResp id => ({ st with ctx := { st.ctx with resp := .alt id } }, none)
   | .replaceReq id => ({ st with ctx := { st.ctx with req := .alt id } }, none)
   | .get k => (st.ev (.got p k (mapGet st.ctx.data k)), none)
@@ -335,7 +332,7 @@ def loop : Nat → List Handler → St → Out
           match loop (i + 1) rest st1 with
           | (st2, none) => loop (i + 1) rest st2
           | (st2, some (.panic _)) =>
-            match respWriteHeader st2 500 with
+            match respWriteHeader (.h i) st2 500 with
             | (st3, none) => loop (i + 1) rest st3       -- recovered: the handler returns, the caller's loop goes on
             | (st3, some v) => (st3, some (.panic v))    -- a panic inside the deferred function
           | r => r
